@@ -78,6 +78,24 @@ type StubUpstream struct {
 	Idx    int
 	Rec    *Recorder
 	Script []Template
+
+	mu   sync.Mutex
+	hold chan struct{} // while non-nil: calls are recorded, then wait until it is closed
+}
+
+// Hold makes the upstream keep every call (after recording it) until the
+// returned function is called.
+func (s *StubUpstream) Hold() (release func()) {
+	ch := make(chan struct{})
+	s.mu.Lock()
+	s.hold = ch
+	s.mu.Unlock()
+	return func() {
+		s.mu.Lock()
+		s.hold = nil
+		s.mu.Unlock()
+		close(ch)
+	}
 }
 
 func (s *StubUpstream) Close() error { return nil }
@@ -102,6 +120,12 @@ func (s *StubUpstream) ExchangeContext(_ context.Context, b []byte) (*[]byte, er
 	s.Rec.mu.Lock()
 	s.Rec.seen = append(s.Rec.seen, seenMsg{s.Idx, q.Copy()})
 	s.Rec.mu.Unlock()
+	s.mu.Lock()
+	hold := s.hold
+	s.mu.Unlock()
+	if hold != nil {
+		<-hold
+	}
 	if len(s.Script) == 0 {
 		return nil, errors.New("stub: no script")
 	}
@@ -149,16 +173,73 @@ type spy struct {
 	inner sequence.Executable
 	err   error
 	resp  *dns.Msg
+
+	mu   sync.Mutex
+	byID map[uint16]spyResult // for overlapping queries: keyed by the query id
+}
+
+type spyResult struct {
+	err  error
+	resp *dns.Msg
 }
 
 func (s *spy) Exec(ctx context.Context, qCtx *query_context.Context) error {
+	id := qCtx.Q().Id
 	err := s.inner.Exec(ctx, qCtx)
-	s.err = err
-	s.resp = nil
+	var resp *dns.Msg
 	if r := qCtx.R(); r != nil {
-		s.resp = r.Copy()
+		resp = r.Copy()
 	}
+	s.mu.Lock()
+	s.err, s.resp = err, resp
+	if s.byID != nil {
+		s.byID[id] = spyResult{err, resp}
+	}
+	s.mu.Unlock()
 	return err
+}
+
+// ---------- a meeting point for overlapping queries ----------
+
+// Rendezvous is a harness executable placed behind a cache: a query that
+// comes with a response (a cache hit) waits here until [need] such queries
+// have arrived; queries without a response (a miss, a lazy update) pass. It
+// never touches the context.
+type Rendezvous struct {
+	mu      sync.Mutex
+	need    int
+	arrived int
+	release chan struct{}
+	Arrived chan struct{} // one token per arrival
+}
+
+func NewRendezvous() *Rendezvous {
+	return &Rendezvous{need: 1, release: make(chan struct{}), Arrived: make(chan struct{}, 16)}
+}
+
+func (r *Rendezvous) Reset(need int) {
+	r.mu.Lock()
+	r.need, r.arrived, r.release = need, 0, make(chan struct{})
+	r.mu.Unlock()
+	for len(r.Arrived) > 0 {
+		<-r.Arrived
+	}
+}
+
+func (r *Rendezvous) Exec(_ context.Context, qCtx *query_context.Context) error {
+	if qCtx.R() == nil {
+		return nil
+	}
+	r.mu.Lock()
+	r.arrived++
+	ch := r.release
+	if r.arrived == r.need {
+		close(ch)
+	}
+	r.mu.Unlock()
+	r.Arrived <- struct{}{}
+	<-ch
+	return nil
 }
 
 // ---------- one query ----------
